@@ -1230,6 +1230,28 @@ class ResamTreeSuite(Suite):
                 if p < 0 or deg[i] != 1:          # root, furcations, tips
                     if any(abs(res["out"][c][i] - res["in"][c][i]) > 1e-6 for c in "xyz"):
                         out.append(("smooth-tree-endpoint", f"node {i} (root / furcation / tip) moved")); break
+            # C16Tree2.generated_smooth_tree: the rows of EVERY branch are the windowed means of the ORIGINAL rows of that branch (whatever the
+            # order in which the branches were processed); branches and windows recomputed here from the parent column alone
+            kids = {}
+            for i, p in enumerate(pids):
+                kids.setdefault(p, []).append(i)
+            k = case["k"]
+            hi_off = (k - 1) // 2
+            for top in range(len(pids)):
+                if pids[top] >= 0 and deg[top] == 1:
+                    continue
+                for c0 in kids.get(top, []):
+                    br = [top, c0]
+                    while deg[br[-1]] == 1:
+                        br.append(kids[br[-1]][0])
+                    for c in "xyz":
+                        v = [res["in"][c][i] for i in br]
+                        for j in range(1, len(br) - 1):
+                            win = [v[a] for a in range(max(0, j + hi_off - k + 1), min(len(br) - 1, j + hi_off) + 1)]
+                            want = sum(win) / len(win)
+                            if abs(res["out"][c][br[j]] - want) > 1e-4 * max(1.0, abs(want)):
+                                out.append(("smooth-tree-branch", f"node {br[j]} of branch {br[:6]}: {c} = {res['out'][c][br[j]]}, windowed mean of the original branch = {want}"))
+                                return out
             return out
         pid = res["pid"]
         if res["id"] != list(range(len(pid))) or pid[0] != -1 or any(not (0 <= p < k) for k, p in enumerate(pid) if k > 0):
